@@ -791,6 +791,17 @@ func (r *runner) refine(cond ast.Expr, branch bool, st *State) {
 		if or := r.origins[x]; or != nil {
 			r.boolEvent(or, branch, st)
 		}
+		// errors.Is / errors.As matched: the failure is recognised as a specific condition and handled
+		if f := core.Callee(r.info, x); branch && f != nil && f.Pkg() != nil && (f.Pkg().Path() == "errors" || f.Pkg().Path() == "github.com/pkg/errors") && (f.Name() == "Is" || f.Name() == "As") && len(x.Args) == 2 {
+			if o := core.ObjOf(r.info, x.Args[0]); o != nil {
+				if or := st.Def[o]; or != nil {
+					delete(st.Unrep, or)
+					for _, t := range or.Tags {
+						r.addTag(st, "matched:"+t)
+					}
+				}
+			}
+		}
 	}
 }
 
@@ -1214,7 +1225,16 @@ func (r *runner) exprNil(e ast.Expr, st *State) int8 {
 			return isNil
 		}
 		if o := r.info.Uses[x]; o != nil {
-			return st.Nil[o]
+			if v, ok := st.Nil[o]; ok {
+				return v
+			}
+			if r.sentinel(o) {
+				return isNonNil
+			}
+		}
+	case *ast.SelectorExpr:
+		if o := r.info.Uses[x.Sel]; o != nil && r.sentinel(o) {
+			return isNonNil
 		}
 	case *ast.CallExpr:
 		if r.nonNilCall(x, st) {
@@ -1624,4 +1644,64 @@ func (r *runner) valueSpec(b *cfg.Block, vs *ast.ValueSpec, st *State) {
 			r.bind(o, vs.Values[i], st)
 		}
 	}
+}
+
+var sentinelCache = map[types.Object]bool{}
+
+// sentinel: a package-level error variable of the repository initialised by errors.New / fmt.Errorf
+// and never reassigned is a non-nil sentinel.
+func (r *runner) sentinel(o types.Object) bool {
+	v, ok := o.(*types.Var)
+	if !ok || v.Pkg() == nil || v.Parent() != v.Pkg().Scope() || r.sp == nil || r.sp.W == nil {
+		return false
+	}
+	if res, ok := sentinelCache[o]; ok {
+		return res
+	}
+	res := false
+	if p := r.sp.W.ByPath[v.Pkg().Path()]; p != nil {
+		for _, f := range p.Syntax {
+			for _, d := range f.Decls {
+				gd, ok := d.(*ast.GenDecl)
+				if !ok {
+					continue
+				}
+				for _, spc := range gd.Specs {
+					vs, ok := spc.(*ast.ValueSpec)
+					if !ok {
+						continue
+					}
+					for i, nm := range vs.Names {
+						if p.TypesInfo.Defs[nm] == o && i < len(vs.Values) {
+							if c, ok := ast.Unparen(vs.Values[i]).(*ast.CallExpr); ok {
+								if f := core.Callee(p.TypesInfo, c); f != nil && f.Pkg() != nil {
+									switch f.Pkg().Path() + "." + f.Name() {
+									case "errors.New", "fmt.Errorf", "github.com/pkg/errors.New", "github.com/pkg/errors.Errorf":
+										res = true
+									}
+								}
+							}
+						}
+					}
+				}
+			}
+		}
+		// reassigned anywhere in its package?
+		if res {
+			for _, f := range p.Syntax {
+				ast.Inspect(f, func(n ast.Node) bool {
+					if as, ok := n.(*ast.AssignStmt); ok {
+						for _, l := range as.Lhs {
+							if core.ObjOf(p.TypesInfo, l) == o {
+								res = false
+							}
+						}
+					}
+					return res
+				})
+			}
+		}
+	}
+	sentinelCache[o] = res
+	return res
 }
